@@ -6,6 +6,11 @@ import traceback
 
 
 def main():
+    if os.environ.get("PYTHONHASHSEED") != "0":
+        # reproducible set/dict iteration orders (term sets contain strings): the same run twice explores the same
+        # cases in the same order, so a replay reproduces a report exactly
+        os.environ["PYTHONHASHSEED"] = "0"
+        os.execv(sys.executable, [sys.executable, "-m", "cv"] + sys.argv[1:])
     ap = argparse.ArgumentParser(prog="cv")
     sub = ap.add_subparsers(dest="cmd")
     c = sub.add_parser("check")
